@@ -2,7 +2,7 @@
 from mir2smt.ob import *
 from mir2smt import terms as T
 
-CRATES = ["ckb-occupied-capacity-core", "ckb-constant", "ckb-types", "ckb-chain-spec"]
+CRATES = ["ckb-occupied-capacity-core", "ckb-constant", "ckb-types", "ckb-pow", "ckb-chain-spec"]
 from mir2smt.exec import OpaqueV, AggV, EnumV, BoolV
 U64 = (1 << 64) - 1
 VAL = []   # (session, ctx, concrete input assignments) for translator validation
@@ -484,7 +484,44 @@ def m9_next_epoch(S):
     S.witness(ctx, ob, "reach_clamped_length", sane, T.and_(T.gt(U.t, 0), T.gt(rawlow, hi)))
 
 
-OBLIGATIONS = [m1_fields, m2_order, m3_min_epoch, m4_primary_rewards, m5_secondary, m6_halving, m7_bounding_length, m8_bounding_hash_rate, m9_next_epoch]
+
+def m10_pow_accept(S):
+    """EaglesongPowEngine::verify after the hash: accepted iff the compact target decodes to a non-zero, non-overflowing target and
+    the 256-bit big-endian hash value does not exceed it (compact_to_target itself is decided by C07.k1; Eaglesong is outside)"""
+    ob = "C07.m10"
+    from mir2smt import envlib as E
+    from mir2smt.builtins import deref
+    for eng, crate_fn in (("EaglesongPowEngine", "eaglesong.rs"), ("EaglesongBlake2bPowEngine", "eaglesong_blake2b.rs")):
+        ctx = S.ctx()
+        ctx.uninterpreted_unknown_calls = True
+        target = ctx.int("target", "U256"); ovf = ctx.bool("overflow"); h = ctx.int("hash_value", "U256")
+        seen = {"cmp_arg": []}
+
+        def from_be(ex, c, a, d, h=h, seen=seen):
+            v = deref(ex, a[0])
+            seen["cmp_arg"].append(getattr(v, "name", type(v).__name__))
+            from mir2smt.exec import mk_result
+            return mk_result(True, h, None, d)
+
+        ctx.env = list(E.LOGGING_OFF) + [
+            (E.rx(r"compact_to_target$"), lambda ex, c, a, d, target=target, ovf=ovf: AggV((target, BoolV(ovf.t)), "(U256, bool)")),
+            (E.rx(r"U256>::from_big_endian$"), from_be),
+            (E.rx(r"^eaglesong$|eaglesong::eaglesong$"), lambda ex, c, a, d: UNIT),
+            (E.rx(r"pow_message$|calc_pow_hash$|as_reader$|Header::nonce$|Header::raw$|RawHeader::compact_target$|blake2b_256$"), E.opaque_call()),
+            (E.rx(r"Uint32 as Into<u32>>::into$|Uint128 as Into<u128>>::into$"), E.opaque_call()),
+            (E.rx(r"max_level|__private_api|fmt::rt::|Arguments"), E.opaque_call()),
+        ]
+        cands = [f for f in S.prog.by_short.get("verify", []) if crate_fn in f.name and "PowEngine" in (f.impl_header or "")]
+        if len(cands) != 1:
+            raise Inconclusive(f"{eng}::verify: {len(cands)} candidates")
+        ps = S.run(ctx, cands[0], [ctx.ref_to(OpaqueV("engine", eng)), ctx.ref_to(OpaqueV("header", "Header"))])
+        S.prove(ctx, ob, f"{eng}_no_panic", [], T.not_(cond_of(panics(ps))))
+        acc = merged(ps, as_bool)
+        S.prove(ctx, ob, f"{eng}_accepts_iff_valid_target_and_hash_not_above_it", [], T.iff(acc, T.and_(T.ne(target.t, 0), T.not_(ovf.t), T.le(h.t, target.t))))
+        S.witness(ctx, ob, f"{eng}_reach_boundary_accept", [acc], T.eq(h.t, target.t))
+
+
+OBLIGATIONS = [m1_fields, m2_order, m3_min_epoch, m4_primary_rewards, m5_secondary, m6_halving, m7_bounding_length, m8_bounding_hash_rate, m9_next_epoch, m10_pow_accept]
 
 
 def validate(S, native):
